@@ -526,7 +526,15 @@ impl<'a> Gen<'a> {
         match self.rng.below(6) {
             0 | 1 => (n.to_string(), n.to_string()),
             2 => ("0".into(), "-".into()),
-            3 => ("0".into(), "18446744073709551615".into()),
+            3 => {
+                // a huge upper bound, saturating the cost estimate or not
+                let his = [
+                    "18446744073709551615", "9223372036854775807", "4611686018427387903",
+                    "1152921504606846975", "281474976710656", "4611686018427387904",
+                ];
+                let lo = if self.rng.pct(50) { 0 } else { self.rng.range(0, n as i64) };
+                (lo.to_string(), his[self.rng.below(his.len() as u64) as usize].into())
+            }
             4 => (n.to_string(), "-".into()),
             _ => {
                 let lo = self.rng.range(0, n as i64);
@@ -597,7 +605,14 @@ impl<'a> Gen<'a> {
             .to_string();
             if (st == "n" || st == "b") && self.rng.pct(12) {
                 // nth / nth_back: k mostly small, sometimes beyond what is left
-                let k = if self.rng.pct(75) { self.rng.below(3) } else { self.rng.below(len as u64 + 3) };
+                let k = if self.rng.pct(70) {
+                    self.rng.below(3)
+                } else if self.rng.pct(85) {
+                    self.rng.below(len as u64 + 3)
+                } else {
+                    // far beyond the end, up to usize::MAX
+                    [u64::MAX, u64::MAX - 1, 1 << 40][self.rng.below(3) as usize]
+                };
                 st = if st == "n" { format!("nth:{k}") } else { format!("nthb:{k}") };
             } else if itermut && (st == "n" || st == "b") && self.rng.pct(70) {
                 let w = self.opt_prio(40);
